@@ -31,7 +31,7 @@ theorem parseA_prim (f : Nat) (ts : List Tok) : parseA (f + 1) .prim ts =
        match ts with
        | [.int n] => some (.const n)
        | [.fint _ n] => some (.const n)
-       | [.flt x] => some (.flt x)
+       | [.flt x] => if x.finite then some (.flt x) else none
        | [.ident s] => some (.var s)
        | _ => none) := rfl
 
@@ -348,6 +348,11 @@ def AExpr.litStable : AExpr → Bool
   | .bin _ l r => l.litStable && r.litStable
   | _ => true
 
+def AExpr.allFinite : AExpr → Bool
+  | .flt f => f.finite
+  | .bin _ l r => l.allFinite && r.allFinite
+  | _ => true
+
 theorem floatTok_stable {f : FloatLit} (h : f.stable = true) : floatTok f = .flt f := by
   unfold FloatLit.stable at h
   unfold floatTok
@@ -355,7 +360,7 @@ theorem floatTok_stable {f : FloatLit} (h : f.stable = true) : floatTok f = .flt
   | none => rfl
   | some n => simp [hp] at h
 
-theorem parse_prim_leaf (e : AExpr) (hb : e.isBin = false) (hl : e.litStable = true) (f : Nat) :
+theorem parse_prim_leaf (e : AExpr) (hb : e.isBin = false) (hl : e.litStable = true) (hfin : e.allFinite = true) (f : Nat) :
     parseA (f + 1) .prim (printArith e) = some e := by
   cases e with
   | bin _ _ _ => simp [AExpr.isBin] at hb
@@ -363,7 +368,8 @@ theorem parse_prim_leaf (e : AExpr) (hb : e.isBin = false) (hl : e.litStable = t
   | const n => simp [parseA, printArith, unparen]
   | flt x =>
     have : floatTok x = .flt x := floatTok_stable hl
-    simp [parseA, printArith, unparen, this]
+    have hf : x.finite = true := hfin
+    simp [parseA, printArith, unparen, this, hf]
 
 theorem headSci_reverse (ts : List Tok) : headSci ts.reverse = lastTokSci ts := by
   unfold headSci lastTokSci
@@ -389,13 +395,13 @@ theorem headOperand_reverse (ts : List Tok) (h : ∀ t, ts.getLast? = some t →
 
 /-- all three precedence levels at once; `4 * height + 4` fuel is enough. -/
 theorem parse_levels (e : AExpr) :
-    e.litStable = true → e.sciHidden = false →
+    e.litStable = true → e.sciHidden = false → e.allFinite = true →
     (∀ f, 4 * e.height + 3 ≤ f → parseA f .add (printArith e) = some e) ∧
     (e.isAddBin = false → ∀ f, 4 * e.height + 2 ≤ f → parseA f .mul (printArith e) = some e) ∧
     (∀ f, 4 * e.height + 4 ≤ f → parseA f .prim (paren (printArith e)) = some e) := by
   induction e with
   | var s =>
-    intro hl _
+    intro hl _ _
     refine ⟨?_, ?_, ?_⟩
     · intro f hf
       obtain ⟨g, rfl⟩ : ∃ g, f = g + 3 := ⟨f - 3, by simp [AExpr.height] at hf; omega⟩
@@ -409,7 +415,7 @@ theorem parse_levels (e : AExpr) :
       simp only [parseA, this]
       simp [parseA, printArith, findSplit, unparen]
   | const n =>
-    intro hl _
+    intro hl _ _
     refine ⟨?_, ?_, ?_⟩
     · intro f hf
       obtain ⟨g, rfl⟩ : ∃ g, f = g + 3 := ⟨f - 3, by simp [AExpr.height] at hf; omega⟩
@@ -423,30 +429,33 @@ theorem parse_levels (e : AExpr) :
       simp only [parseA, this]
       simp [parseA, printArith, findSplit, unparen]
   | flt x =>
-    intro hl _
+    intro hl _ hfin
+    have hfx : x.finite = true := hfin
     have hx : floatTok x = .flt x := floatTok_stable hl
     refine ⟨?_, ?_, ?_⟩
     · intro f hf
       obtain ⟨g, rfl⟩ : ∃ g, f = g + 3 := ⟨f - 3, by simp [AExpr.height] at hf; omega⟩
-      simp [parseA, printArith, findSplit, unparen, hx]
+      simp [parseA, printArith, findSplit, unparen, hx, hfx]
     · intro _ f hf
       obtain ⟨g, rfl⟩ : ∃ g, f = g + 2 := ⟨f - 2, by simp [AExpr.height] at hf; omega⟩
-      simp [parseA, printArith, findSplit, unparen, hx]
+      simp [parseA, printArith, findSplit, unparen, hx, hfx]
     · intro f hf
       obtain ⟨g, rfl⟩ : ∃ g, f = g + 4 := ⟨f - 4, by simp [AExpr.height] at hf; omega⟩
       have := unparen_paren (.flt x)
       simp only [parseA, this]
-      simp [parseA, printArith, findSplit, unparen, hx]
+      simp [parseA, printArith, findSplit, unparen, hx, hfx]
   | bin op l r ihl ihr =>
-    intro hlit hsci
+    intro hlit hsci hfin
+    have hfinl : l.allFinite = true := by simp [AExpr.allFinite] at hfin; exact hfin.1
+    have hfinr : r.allFinite = true := by simp [AExpr.allFinite] at hfin; exact hfin.2
     have hlitl : l.litStable = true := by simp [AExpr.litStable] at hlit; exact hlit.1
     have hlitr : r.litStable = true := by simp [AExpr.litStable] at hlit; exact hlit.2
     have hscil : l.sciHidden = false := by
       simp only [AExpr.sciHidden, Bool.or_eq_false_iff] at hsci; exact hsci.1.1
     have hscir : r.sciHidden = false := by
       simp only [AExpr.sciHidden, Bool.or_eq_false_iff] at hsci; exact hsci.1.2
-    obtain ⟨lA, lM, lP⟩ := ihl hlitl hscil
-    obtain ⟨rA, rM, rP⟩ := ihr hlitr hscir
+    obtain ⟨lA, lM, lP⟩ := ihl hlitl hscil hfinl
+    obtain ⟨rA, rM, rP⟩ := ihr hlitr hscir hfinr
     have hhl : l.height ≤ max l.height r.height := Nat.le_max_left _ _
     have hhr : r.height ≤ max l.height r.height := Nat.le_max_right _ _
     -- the split found at this node, for the level that owns `op`
@@ -554,7 +563,7 @@ theorem parse_levels (e : AExpr) :
           | false =>
             simp only [Bool.false_eq_true, if_false]
             obtain ⟨k, rfl⟩ : ∃ k, g = k + 1 := ⟨g - 1, by omega⟩
-            exact parse_prim_leaf r hr hlitr k
+            exact parse_prim_leaf r hr hlitr hfinr k
         simp [h1, h2]
       have addLevel : ∀ f, 4 * (AExpr.bin op l r).height + 3 ≤ f → parseA f .add (printArith (.bin op l r)) = some (.bin op l r) := by
         intro f hf
